@@ -80,12 +80,15 @@ def dget(ex, st, d, k):
     """d[k] for a str-keyed dict (unconstrained if absent)"""
     dt = d.ty.args[0] if d.ty.kind == 'opt' else d.ty
     code = code_of(dt.args[0])
-    return SV(ex.H(st, 'Dv.' + code)[d.term][ex.term(k, 'S')], dt.args[0])
+    t = ex.H(st, 'Dv.' + code)[d.term][ex.dict_key(k)]
+    if ex.spec_facts is not None:
+        ex.spec_facts.extend(ex.type_facts(st, t, dt.args[0]))
+    return SV(t, dt.args[0])
 
 
 @specfunc('dhas')
 def dhas(ex, st, d, k):
-    return SV(ex.H(st, 'Dd')[d.term][ex.term(k, 'S')], BOOL)
+    return SV(ex.H(st, 'Dd')[d.term][ex.dict_key(k)], BOOL)
 
 
 @axioms
@@ -138,6 +141,11 @@ def _idx_parts(ex, st, elist, name, field):
     ok, nt = _name_term(ex, name)
     present = z3.And(ok, ex.H(st, 'Dd')[d][nt])
     lst = ex.H(st, 'Dv.R')[d][nt]
+    if getattr(ex, 'spec_facts', None) is not None:
+        # heap typing invariant: a present key of a dict[list[Element]] maps to a live list object
+        facts = ex.type_facts(st, lst, ListT(ObjT('Element')))
+        ex.spec_facts.append(z3.Implies(present, z3.And(*facts)))
+        ex.spec_facts.extend(ex.type_facts(st, d, DictT(ListT(ObjT('Element')))))
     return present, lst
 
 
